@@ -253,13 +253,18 @@ def directed_common():
          {"a": "IprpcSetData", "cons": "C1", "amt": 100},
          {"a": "SubBuy", "creator": "C1", "cons": "C1", "plan": "PL1", "months": 12, "auto": False}, ne,
          {"a": "DsDelegate", "del": "D1", "prov": "P1", "val": "VA1", "amt": 2000},
+         # D2 is the poor delegator (2003 tokens): after this its liquid balance is 3
+         {"a": "DsDelegate", "del": "D2", "prov": "P1", "val": "VA1", "amt": 2000},
+         # two funded specs, only S1 is served: the fund of S2 must roll over without touching S1's
          {"a": "IprpcFund", "who": "C2", "spec": "S1", "months": 3, "amt": 1100},
+         {"a": "IprpcFund", "who": "C2", "spec": "S2", "months": 3, "amt": 400},
          relay("P1", 60), me, p10, ne, relay("P1", 60), relay("P2", 10),
          me, p10, me, p10, ne, ne, ne, ne, relay("P1", 60), me, p10, me, p10, ne,
          {"a": "DsClaim", "who": "P1", "prov": ""}, {"a": "DsClaim", "who": "D1", "prov": ""},
-         {"a": "DsClaim", "who": "P2", "prov": "P2"},
+         {"a": "DsClaim", "who": "D2", "prov": ""}, {"a": "DsClaim", "who": "P2", "prov": "P2"},
          {"a": "Unstake", "prov": "P2", "spec": "S1", "by": "vault", "val": "VA1"},
-         relay("P1", 60), me, p10, me, p10, ne, ne, ne, ne, {"a": "DsClaim", "who": "P1", "prov": "P1"}]
+         relay("P1", 60), me, p10, me, p10, ne, ne, ne, ne, {"a": "DsClaim", "who": "P1", "prov": "P1"},
+         {"a": "DsClaim", "who": "D2", "prov": ""}]
     return [h]
 
 
